@@ -13,6 +13,7 @@ func c07(tier string) int {
 		"migr:kA:G3:temp:G3", "migr:kA:G3:G1:G3", "migr:kA:G3:G2:G3", "migr:kA:G3:G1:G3:stale", "migr:kA:G3:G1:G3:staleserver",
 		"sauth:S1:0:1:G1:9:stale",
 		"restart",
+		"fail:gcaPubKey.dat:open", "fail:gcaPubKey.dat:write", // the next operation cannot create / write the key file
 	}
 	depth := 8 // the reachable state space closes well before this depth
 	if tier == "thorough" {
@@ -23,7 +24,7 @@ func c07(tier string) int {
 	st := bfsPool(run, p, "ops", arg, depth, 0, authFilter(arg.Init, ops))
 	// concurrent part: every interleaving (unbounded preemptions; the scenario is tiny)
 	execs, ok := runScenarios(run, []srvScenarioDef{c07Scenario()}, -1, p)
-	finishBfs(run, st, "sequential part: BFS to closure from an unregistered server over registrations (valid by either candidate, signed by the candidate itself / the server key / the winner, key altered after signing, replays), restarts, and equipment authorizations, server authorizations and migration orders each signed by the temp key, G1 and G2; the model honours only the first temp-key-signed registration and afterwards only the winner's orders. Concurrent part: every interleaving at lock points of {reg G1, reg G2, reg G3 signed by the wrong key, authorization signed by G1}; (status codes, final key, gcaPubKey.dat) must equal a sequential order's outcome")
+	finishBfs(run, st, "sequential part: BFS to closure from an unregistered server over registrations (valid by either candidate, signed by the candidate itself / the server key / the winner, key altered after signing, replays, and registrations whose key file cannot be opened (EACCES) or written (ENOSPC): they must fail as a whole), restarts, and equipment authorizations, server authorizations and migration orders each signed by the temp key, G1 and G2; the model honours only the first temp-key-signed registration and afterwards only the winner's orders. Concurrent part: every interleaving at lock points of {reg G1, reg G2, reg G3 signed by the wrong key, authorization signed by G1}; (status codes, final key, gcaPubKey.dat) must equal a sequential order's outcome")
 	run.Coverage["alphabet"] = ops
 	run.Coverage["schedules"] = execs
 	run.Coverage["transitions"] = st.Transitions + execs
